@@ -76,6 +76,70 @@ struct Duplex {
 struct WriteEnd(Rc<RefCell<Duplex>>);
 struct ReadEnd(Rc<RefCell<Duplex>>);
 
+/// One end of a bidirectional simulated byte stream (for bus runs over the real `TokioTransport`).
+pub struct BiEnd {
+    w: WriteEnd,
+    r: ReadEnd,
+}
+
+fn new_duplex(rng: Rng, capacity: usize, max_chunk: usize, pending_permille: u32) -> Rc<RefCell<Duplex>> {
+    Rc::new(RefCell::new(Duplex {
+        buf: VecDeque::new(),
+        capacity,
+        rng,
+        pending_permille,
+        max_chunk: max_chunk.max(1),
+        fault: IoFault::None,
+        fault_fired: false,
+        read_waker: None,
+        write_waker: None,
+        written: Vec::new(),
+        keep_written: false,
+        bytes_written: 0,
+        bytes_read: 0,
+        flushed_after_last_write: true,
+        writer_closed: false,
+        sig: Fnv::new(),
+        stats: IoStats::default(),
+        read_ops: 0,
+        write_ops: 0,
+    }))
+}
+
+/// A pair of connected byte-stream ends with scripted short reads/writes and `Pending`.
+pub fn bi_pipe(rng: &mut Rng, capacity: usize, max_chunk: usize, pending_permille: u32) -> (BiEnd, BiEnd) {
+    let ab = new_duplex(rng.fork(1), capacity, max_chunk, pending_permille);
+    let ba = new_duplex(rng.fork(2), capacity, max_chunk, pending_permille);
+    (
+        BiEnd {
+            w: WriteEnd(ab.clone()),
+            r: ReadEnd(ba.clone()),
+        },
+        BiEnd {
+            w: WriteEnd(ba),
+            r: ReadEnd(ab),
+        },
+    )
+}
+
+impl AsyncRead for BiEnd {
+    fn poll_read(mut self: Pin<&mut Self>, cx: &mut Context<'_>, buf: &mut ReadBuf<'_>) -> Poll<io::Result<()>> {
+        Pin::new(&mut self.r).poll_read(cx, buf)
+    }
+}
+
+impl AsyncWrite for BiEnd {
+    fn poll_write(mut self: Pin<&mut Self>, cx: &mut Context<'_>, buf: &[u8]) -> Poll<io::Result<usize>> {
+        Pin::new(&mut self.w).poll_write(cx, buf)
+    }
+    fn poll_flush(mut self: Pin<&mut Self>, cx: &mut Context<'_>) -> Poll<io::Result<()>> {
+        Pin::new(&mut self.w).poll_flush(cx)
+    }
+    fn poll_shutdown(mut self: Pin<&mut Self>, cx: &mut Context<'_>) -> Poll<io::Result<()>> {
+        Pin::new(&mut self.w).poll_shutdown(cx)
+    }
+}
+
 // The write end is never read from and vice versa, but TokioTransport wants both traits.
 impl AsyncRead for WriteEnd {
     fn poll_read(self: Pin<&mut Self>, _cx: &mut Context<'_>, _buf: &mut ReadBuf<'_>) -> Poll<io::Result<()>> {
